@@ -103,3 +103,18 @@ def pyIloc {α : Type} (s : List (Nat × α)) (pos : List Nat) : List (Nat × α
 /-- `flatten_tuples`: the owner index of every element, and the elements, in order -/
 def pyFlattenTuples {α : Type} (ls : List (List α)) : List Nat × List α :=
   (ls.zipIdx.flatMap (fun x => x.1.map fun _ => x.2), ls.flatMap id)
+
+/-- `xs.insert(i, v)`: before position `i`, at the end when `i ≥ len` -/
+def pyInsertIdx {α : Type} (l : List α) (i : Nat) (v : α) : List α := l.take i ++ v :: l.drop i
+
+/-- insertion of `x` into a list sorted by `key`, before the first element whose key is not smaller -/
+def pyInsertBy {α : Type} (key : α → Rat) (x : α) : List α → List α
+  | [] => [x]
+  | y :: ys => if key x ≤ key y then x :: y :: ys else y :: pyInsertBy key x ys
+/-- `sorted(l, key=key)`: STABLE sort by a rational key (equal keys keep their order) -/
+def pySortedBy {α : Type} (key : α → Rat) (l : List α) : List α := l.foldr (pyInsertBy key) []
+
+/-- `l.index(min(l))`: position of the first minimum (0 for the empty list, where Python raises) -/
+def pyIndexOfMin : List Rat → Nat
+  | [] => 0
+  | d :: rest => (rest.zipIdx.foldl (fun (best : Nat × Rat) (x : Rat × Nat) => if x.1 < best.2 then (x.2 + 1, x.1) else best) (0, d)).1
